@@ -97,11 +97,19 @@ def scenarios():
     add('S3 sportshall||sportshall first-call, table build as one step', [], [_call(ss, 'SLJ', '1.50'), _call(ss, '100', '30.0')],
         bound=(2, 2), atomic=('athlib.sportshall_score', 'load_data'))
     add('S3 sportshall||sportshall warmed-up', [_call(ss, 'SHJ', '30')], [_call(ss, 'SLJ', '1.50'), _call(ss, '100', '30.0')])
+    # the same event / row in both threads (whatever is built lazily per event is built twice at once)
+    add('S3 sportshall same event||same event, first use of that event, table loaded', [_call(ss, 'SHJ', '30')], [_call(ss, 'SLJ', '1.50'), _call(ss, 'SLJ', '1.75')],
+        bound=(1, 2))
+    add('S3 sportshall same timed event||same event, first use of that event, table loaded', [_call(ss, 'SHJ', '30')], [_call(ss, '100', '30.0'), _call(ss, '100', '27.5')],
+        bound=(1, 2))
+    add('S2 hungarian same event||same event warmed-up by another', [_call(hs, 'M', 'OUT', '200', 21)],
+        [_call(hs, 'M', 'OUT', '100', 10.5), _call(hs, 'M', 'OUT', '100', 11.5)], bound=(1, 2))
     # S4 shared graders
     af, ag_, wb = a.wma_age_factor, a.wma_age_grade, a.wma_world_best
     aaf, aag = a.wma_athlon_age_factor, a.wma_athlon_age_grade
     # quick: rows at the top of the table keep the row scan (and so the number of scheduling points) short
     add('S4 wma_age_factor||wma_age_factor warmed-up, early rows', [_call(af, 'm', 40, '55H')], [_call(af, 'm', 50, '55H'), _call(af, 'f', 62, '60H')])
+    add('S4 wma_age_factor same row||same row warmed-up, early rows', [_call(af, 'm', 40, '60H')], [_call(af, 'm', 50, '55H'), _call(af, 'm', 67, '55H')], bound=(1, 2))
     add('S4 wma_age_factor||wma_age_factor warmed-up', [_call(af, 'm', 40, 'HJ')], [_call(af, 'm', 50, 'HJ'), _call(af, 'f', 62, 'PV')], bound=(1, 2))
     add('S4 wma_age_factor||wma_age_factor first-call', [], [_call(af, 'm', 50, 'HJ'), _call(af, 'f', 62, 'PV')], bound=(1, 2))
     add('S4 wma_age_grade||wma_world_best warmed-up, early rows', [_call(af, 'm', 40, '55H')], [_call(ag_, 'm', 50, '55H', 9.0), _call(wb, 'f', '60H')])
